@@ -5,6 +5,31 @@ COMMON_NOTE = ("Trusted: Lean 4.33 kernel (axioms propext, Classical.choice, Quo
                "regenerating Generated.lean from the sources and by replaying implementation traces through the model.")
 PENDING_REASON = {}
 CLAIMS = {
+    "C05": {
+        "text": "Refinement theorems: for every history of add/append/delete/clear over any indexes the model's item store refines the "
+                "abstract map id -> last written vector (presence, bit-exact read-back for f32 metrics, sign pattern for quantised ones, "
+                "ascending iteration, emptiness, deletion result); the implementation is compared with the model after every single "
+                "operation (answers and full decoded dumps) over histories covering all float bit patterns, all metrics, u32-wide ids.",
+        "note": COMMON_NOTE + " `Building never changes any of this` is the theorem C05_build_preserves (ArroyProofs/Properties/C05Build.lean) "
+                "when present, and is compared on every build by the dumps.",
+        "technique": "Lean 4 refinement proof (induction over histories) + per-operation differential replay against the real crate",
+    },
+    "C06": {
+        "text": "Reader::open and Writer::need_build are characterised exactly (three checks in order; stale iff a mark exists or "
+                "metadata is missing), every effective mutation provably leaves a mark, no-ops provably change nothing, metric names "
+                "are pairwise distinct; the implementation's open/need_build answers are compared with the model after every operation, "
+                "in the write transaction and from fresh read transactions after commit and abort.",
+        "note": COMMON_NOTE,
+        "technique": "Lean 4 theorems over the store model + per-operation differential replay",
+    },
+    "C19": {
+        "text": "Rejected calls provably return the documented error and no new store; append is proved to fail exactly when some key of the "
+                "whole database is >= the new key and otherwise to equal add; absent deletes provably change nothing; the malformed "
+                "stream (wrong lengths, bad appends, absent deletes) is replayed against the real crate with the raw dump compared "
+                "before/after.",
+        "note": COMMON_NOTE,
+        "technique": "Lean 4 theorems + differential replay of a malformed-call stream",
+    },
     "C16": {
         "text": "Key layout proved for ALL keys (byte order = (index, kind, id) order, round-trip, injectivity, 8 bytes), node-id and "
                 "version codecs round-trip, and an obligation tying the layout extracted from the current sources to the reference "
